@@ -10,8 +10,8 @@ real traces."""
 import json, os, re, subprocess, time
 
 # the variant of the model that corresponds to the current source (see Skeleton.lean):
-# pruneAfterRUnlock=0 txFirst=1 useOwn=1
-VARIANT = "011"
+# pruneAfterRUnlock=0 txFirst=1 useOwn=1 dropOld=1
+VARIANT = "0111"
 
 # workloads of the witnesses of the defects found on the pinned tree (each is explored on every run)
 FOCUS = [
